@@ -6,10 +6,54 @@ import (
 )
 
 // datacore: the executor of protocol `data` (real KVNode, real leader-side handlers, real apply path) driven by a
-// generator restricted to the commands that the executable Lean storage model covers (hash family, local-deletion
-// layout, one entry per apply event, strictly increasing log time, well-formed commands), so that EVERY answer
-// line is compared with the Lean model in diff mode.
+// generator restricted to the commands that the executable Lean storage model covers (hash family incl. HINCRBY,
+// local-deletion layout, strictly increasing log time, well-formed commands), so that EVERY answer line is compared with
+// the Lean model in diff mode. Most apply events hold one entry; about one write in ten is an event of 2-5 hash writes
+// on one key (`w <ts> 0 …` lines closed by a `w <ts> 1 …` line).
 func init() { register(&Proto{Name: "datacore", Gen: genDataCore, New: newData}) }
+
+// field values that HINCRBY meets: int64 boundaries, the forms strconv.ParseInt(·, 10, 64) accepts ("+5", "-0", "007")
+// and refuses (" 5", "5 ", "0x10", "1_0", "1.5", "1e3", empty, sign only, non-ASCII digit), out of range by one,
+// very long digit strings (out of range / leading zeros in range)
+var dcIntVals = []string{"0", "1", "-1", "12", "41", "9223372036854775807", "9223372036854775806", "-9223372036854775808",
+	"-9223372036854775807", "4611686018427387904", "-4611686018427387904", "+5", "-0", "+0", "007", "-007", " 5", "5 ", "0x10",
+	"1_0", "1.5", "1e3", "", "abc", "-", "+", "\xd9\xa1", "9223372036854775808", "-9223372036854775809",
+	"99999999999999999999999999999999999999", "-99999999999999999999999999999999999999",
+	"000000000000000000000000000000000012", "18446744073709551616", "18446744073709551615"}
+
+// increments: mostly small and well-formed; extremes; the same accepted / refused forms (the increment is parsed by the
+// apply handler, so an ill-formed one is answered at apply time)
+var dcDeltas = []string{"9223372036854775807", "-9223372036854775808", "4611686018427387904", "-4611686018427387904",
+	"9223372036854775806", "+5", "-0", "007", " 5", "5 ", "", "abc", "0x10", "1.0", "99999999999999999999",
+	"-9223372036854775809", "9223372036854775808", "00000000000000000000001"}
+
+func dcDelta(rng *rand.Rand) string {
+	if rng.Intn(100) < 60 {
+		return []string{"1", "-1", "0", "5", "-3", "10", "2"}[rng.Intn(7)]
+	}
+	return dcDeltas[rng.Intn(len(dcDeltas))]
+}
+
+// dcIncrSeq: HSET f v / HINCRBY f d / HDEL f / HINCRBY f d' (each step kept with probability 3/4, so that shorter
+// variants occur too), on one key and one field
+func dcIncrSeq(rng *rand.Rand, k, f string) []string {
+	var out []string
+	steps := []string{
+		dcHex("hset", k, f, dcIntVals[rng.Intn(len(dcIntVals))]),
+		dcHex("hincrby", k, f, dcDelta(rng)),
+		dcHex("hdel", k, f),
+		dcHex("hincrby", k, f, dcDelta(rng)),
+	}
+	for _, st := range steps {
+		if rng.Intn(4) != 0 {
+			out = append(out, st)
+		}
+	}
+	if len(out) == 0 {
+		out = append(out, steps[1])
+	}
+	return out
+}
 
 func genDataCore(rng *rand.Rand, tier string, emit func(string)) {
 	sessions := 120
@@ -38,11 +82,15 @@ func genDataCore(rng *rand.Rand, tier string, emit func(string)) {
 		for i := 0; i < n; i++ {
 			k := ks[rng.Intn(len(ks))]
 			f := func() string { return fields[rng.Intn(len(fields))] }
-			v := func() string { return vals[rng.Intn(len(vals))] }
-			if rng.Intn(100) < 45 {
-				ts += 1 + rng.Int63n(1e6)
+			v := func() string {
+				if rng.Intn(100) < 45 {
+					return dcIntVals[rng.Intn(len(dcIntVals))]
+				}
+				return vals[rng.Intn(len(vals))]
+			}
+			one := func() string {
 				var a string
-				switch r := rng.Intn(20); {
+				switch r := rng.Intn(25); {
 				case r < 7:
 					a = h("hset", k, f(), v())
 				case r < 9:
@@ -57,10 +105,37 @@ func genDataCore(rng *rand.Rand, tier string, emit func(string)) {
 					for j := 0; j < 1+rng.Intn(3); j++ {
 						a += h(f())
 					}
+				case r < 23:
+					a = h("hincrby", k, f(), dcDelta(rng))
 				default:
 					a = h("hclear", k)
 				}
-				emit(fmt.Sprintf("w %d 1%s", ts, a))
+				return a
+			}
+			if rng.Intn(100) < 45 {
+				var ev []string // the entries of this apply event
+				seq := false
+				switch r := rng.Intn(100); {
+				case r < 8:
+					ev, seq = dcIncrSeq(rng, k, f()), rng.Intn(2) == 0
+				case r < 16:
+					for j := 2 + rng.Intn(4); j > 0; j-- {
+						ev = append(ev, one())
+					}
+				default:
+					ev = []string{one()}
+				}
+				for j, a := range ev {
+					ts += 1 + rng.Int63n(1e6)
+					b := 0
+					if j == len(ev)-1 || seq {
+						b = 1 // seq: the same commands as single-entry events
+					}
+					emit(fmt.Sprintf("w %d %d%s", ts, b, a))
+					if b == 0 && rng.Intn(6) == 0 {
+						emit("r" + h("hget", k, f())) // reads inside an open event see the applied state only
+					}
+				}
 				if rng.Intn(4) == 0 {
 					emit("inv")
 				}
